@@ -2,6 +2,7 @@ import MM.Engine.Basic
 import MM.Model.C04
 import MM.Model.Bytes
 import MM.Gen.C04
+import MM.Model.C04Hs
 
 /-
   Engine c04: predictions for the unit-level and mesh-level ops of harness/main/eng_c04.go, computed
@@ -50,6 +51,12 @@ def stepLine (line : String) : String :=
     | .sealWith _ => "key"
     | .plaintext => "nil"
     | .refuse => "err"
+  | ["mesh", "tcpclose", p] =>
+    -- a close in the middle of multi-frame writes: whatever still leaves the ingress is sealed under
+    -- the tunnel key (C04_payload_sealed), never under a key the transit knows
+    (match hexLen p with
+     | some _ => "ok leak 0 zk 0 ua 0"
+     | none => "bad-op")
   | ["mesh", "udpzero", p] =>
     -- active transit zeroing both key fields: what the model's wire shows to the transit
     (match hexLen p with
@@ -63,14 +70,14 @@ def stepLine (line : String) : String :=
   | ["mesh", kd, p] =>
     if kd = "file" ∨ kd = "shell" then
       (match hexLen p with
-       | some _ => "ok echo 1 leak 0 seq 1 1"
+       | some _ => "ok echo 1 leak 0 seq 1 1 zk 0 ua 0"
        | none => "bad-op")
     else if kd ≠ "tcp" ∧ kd ≠ "udp" ∧ kd ≠ "fwd" then "bad-op" else
     match hexLen p with
     -- behind a relaying transit every chunk is sealed (C04_payload_sealed): the payload is echoed,
     -- occurs in no frame, and the data frames of each direction carry exactly n plain bytes with
     -- the sender's prefix and consecutive counters
-    | some n => s!"ok echo 1 leak 0 up {n} 1 down {n} 1"
+    | some n => s!"ok echo 1 leak 0 up {n} 1 down {n} 1 zk 0 ua 0"
     | none => "bad-op"
   | _ => "bad-op"
 
@@ -90,21 +97,36 @@ def spec (op out : String) : String :=
     | ["icmpinit", "zero"], ["key"] => "fail zero-key-accepted"
     | ["respkey", "zero"], ["key"] => "fail zero-key-accepted"
     | _, ["sealed", _, "leak", l] => if l = "0" then "ok" else "fail payload-in-ciphertext"
-    | "mesh" :: _, "ok" :: "echo" :: _ :: "leak" :: l :: "up" :: _ :: u :: "down" :: _ :: d :: _ =>
+    | ["mesh", "tcpclose", _], ["ok", "leak", l, "zk", z, "ua", a] =>
       if l ≠ "0" then "fail plaintext-at-transit"
+      else if z ≠ "0" then "fail frame-sealed-under-all-zero-key"
+      else if a ≠ "0" then "fail frame-not-under-tunnel-key"
+      else "ok"
+    | "mesh" :: _, "ok" :: "echo" :: _ :: "leak" :: l :: "up" :: _ :: u :: "down" :: _ :: d :: "zk" :: z :: "ua" :: a :: _ =>
+      if l ≠ "0" then "fail plaintext-at-transit"
+      else if z ≠ "0" then "fail frame-sealed-under-all-zero-key"
+      else if a ≠ "0" then "fail frame-not-under-tunnel-key"
       else if u ≠ "1" ∨ d ≠ "1" then "fail unsealed-or-misnumbered-frame-at-transit"
       else "ok"
-    | "mesh" :: _, ["ok", "echo", _, "leak", l, "seq", u, d] =>
+    | "mesh" :: _, ["ok", "echo", _, "leak", l, "seq", u, d, "zk", z, "ua", _] =>
       if l ≠ "0" then "fail plaintext-at-transit"
+      else if z ≠ "0" then "fail frame-sealed-under-all-zero-key"
       else if u ≠ "1" ∨ d ≠ "1" then "fail unsealed-or-misnumbered-frame-at-transit"
       else "ok"
     | _, _ => "ok"
 
 def main (args : List String) : IO Unit :=
   match args with
-  | ["spec"] => runPure (fun l => match l.splitOn "\t" with
-      | [op, out] => spec op out
-      | _ => "bad-op")
-  | _ => runPure stepLine
+  | ["spec"] => runLines ({} : C04Hs.Spec) (fun st l => match l.splitOn "\t" with
+      | [op, out] =>
+        if (tokens op).head? = some "hs" then C04Hs.spec st (tokens op) (tokens out)
+        else if (tokens op).head? = some "reset" then ({}, "ok")
+        else (st, spec op out)
+      | _ => (st, "bad-op"))
+  | _ => runLines ({} : C04Hs.St) (fun st l =>
+      match tokens l with
+      | "hs" :: _ => C04Hs.step st (tokens l)
+      | ["reset"] => ({}, "ok")
+      | _ => (st, stepLine l))
 
 end MM.Engine.C04
